@@ -79,6 +79,40 @@ func firstTokenKept(n *parser.ASTNode) bool {
 	return n.Name != parser.NodeLIST && n.Name != parser.NodeMAP
 }
 
+// startsWithSignOrBracket: does the printed text of a statement start with a sign or an opening
+// bracket (it is then separated from the previous statement with a semicolon)?
+func startsWithSignOrBracket(n *parser.ASTNode) bool {
+	for {
+		_, infix, ok := opLevel(n)
+		if !ok {
+			return false
+		}
+		if !infix {
+			return n.Name == parser.NodePLUS || n.Name == parser.NodeMINUS
+		}
+		if bracketed(n, 0, n.Children[0]) {
+			return true
+		}
+		n = n.Children[0]
+	}
+}
+
+// preCommentOnLeftEdge: a block comment which is printed before the first token of the statement.
+func preCommentOnLeftEdge(n *parser.ASTNode) bool {
+	for {
+		for _, m := range n.Meta {
+			if m.Type() == parser.MetaDataPreComment {
+				return true
+			}
+		}
+		_, infix, ok := opLevel(n)
+		if !ok || !infix || bracketed(n, 0, n.Children[0]) {
+			return false
+		}
+		n = n.Children[0]
+	}
+}
+
 // commentNextToBracket: the tree carries a comment which the printer can only
 // place directly after a closing or before an opening bracket - where the
 // parser drops it (open finding C08-comment-next-to-bracket-lost).
@@ -98,7 +132,11 @@ func commentNextToBracket(n *parser.ASTNode) bool {
 			}
 		}
 	}
-	for _, c := range n.Children {
+	for i, c := range n.Children {
+		// a comment before the semicolon which separates a statement starting with a sign or bracket is dropped too
+		if n.Name == parser.NodeSTATEMENTS && i > 0 && startsWithSignOrBracket(c) && preCommentOnLeftEdge(c) {
+			return true
+		}
 		if commentNextToBracket(c) {
 			return true
 		}
@@ -116,6 +154,9 @@ func onlyCommentsDiffer(p1, p2 string) (bool, int, int) {
 				n++
 				continue
 			}
+			if t.ID == parser.TokenCOMMA {
+				continue // the comma after a commented element of a multi-line container becomes part of the comment
+			}
 			sb.WriteString(t.String())
 			sb.WriteByte(0)
 		}
@@ -124,4 +165,20 @@ func onlyCommentsDiffer(p1, p2 string) (bool, int, int) {
 	s1, n1 := strip(p1)
 	s2, n2 := strip(p2)
 	return s1 == s2, n1, n2
+}
+
+// hasTimesDiv: the tree contains a * (b / c) (open finding C08-times-div-brackets).
+func hasTimesDiv(n *parser.ASTNode) bool {
+	if n == nil {
+		return false
+	}
+	if n.Name == parser.NodeTIMES && len(n.Children) == 2 && n.Children[1].Name == parser.NodeDIV && len(n.Children[1].Children) == 2 {
+		return true
+	}
+	for _, c := range n.Children {
+		if hasTimesDiv(c) {
+			return true
+		}
+	}
+	return false
 }
